@@ -47,6 +47,8 @@ def gen_shape(rng, nmax=8):
                 do.append(rng.choice(CMDS))
             if do:
                 r = rng.random()
+                if r >= 0.55 and rng.random() < 0.2:
+                    do = do + [rng.choice(do)]  # the string form may name a target twice (the list form is unique by schema)
                 tr["do"] = list(do) if r < 0.55 else (", ".join(do) if r < 0.85 else ",".join(do))
             if rng.random() < 0.3:
                 tr["publish"] = [{"v": 1}] if rng.random() < 0.6 else "v=1 w=<% result() %>"
